@@ -124,12 +124,12 @@ fn patterns_for(a: &Args, li: usize, len: usize) -> Vec<&'static str> {
             return all;
         }
         if len > 6000 {
-            return vec!["p50", "one1", "run64", "one0"];
+            return if len % 2 == 0 { vec!["p50", "one1"] } else { vec!["run64", "one0"] };
         }
         if len > 1100 {
             return half(len % 2);
         }
-        return rot(3);
+        return rot(1);
     }
     if exact {
         return all;
@@ -435,10 +435,13 @@ impl<'a> Run<'a> {
     }
     fn get(&mut self, api: &str, f: impl Fn(usize) -> Option<bool>) -> R {
         let n = self.inp.len;
+        // every i < len; the sample for large vectors
+        let (all, idx): (bool, Vec<usize>) =
+            if self.inp.big { (false, sample(n - 1, n, 2000)) } else { (true, (0..n).collect()) };
         let at = &self.at;
         let r = guard(|| {
-            (0..n)
-                .map(|i| {
+            idx.iter()
+                .map(|&i| {
                     at.set(i);
                     match f(i) {
                         Some(true) => 1,
@@ -450,7 +453,9 @@ impl<'a> Run<'a> {
         });
         match r {
             Ok(r) => {
-                self.ev(json!({"op":"get","api":api,"r":r}), n);
+                let cnt = r.len();
+                let at = if all { vec![] } else { idx };
+                self.ev(json!({"op":"get","api":api,"all":all,"at":at,"r":r}), cnt);
                 Ok(())
             }
             Err(m) => Err(self.panic(api, m)),
@@ -673,7 +678,7 @@ fn run_subject(r: &mut Run, fam: &str, variant: &str, route: &str, seed: u64) ->
             };
             let s = built(r, s)?;
             ops_basic(r, &s)?;
-            if matches!(variant, "default" | "nosel") && route == "push" || r.full {
+            if matches!(variant, "default" | "nosel") && route == "push" || (r.full && variant == "sel64") {
                 ops_perf(r, &s)?;
                 il_extra(r, &s)?;
             }
@@ -739,7 +744,7 @@ fn run_subject(r: &mut Run, fam: &str, variant: &str, route: &str, seed: u64) ->
             if variant.starts_with("dim0") {
                 let s = built(r, RankSelectMixedIL256::new(make_bv(inp, route), w))?;
                 ops_basic(r, &s.dim0())?;
-                if !r.full {
+                if !(r.full && variant == "dim0_long") {
                     return Ok(());
                 }
                 r.rank("rank1", "rank1_dim", |p| s.rank1_dim(0, p))?;
@@ -747,7 +752,7 @@ fn run_subject(r: &mut Run, fam: &str, variant: &str, route: &str, seed: u64) ->
             } else {
                 let s = built(r, RankSelectMixedIL256::new(w, make_bv(inp, route)))?;
                 ops_basic(r, &s.dim1())?;
-                if !r.full {
+                if !(r.full && variant == "dim1_long") {
                     return Ok(());
                 }
                 r.rank("rank0", "rank0_dim", |p| s.rank0_dim(1, p))?;
@@ -892,11 +897,11 @@ fn drive(a: &Args) {
                 continue;
             }
             // the word-level families and alternative routes are run on every 2nd..3rd vector only (quick tier)
-            if !a.thorough() && a.get("len").is_none() && (!key_length(inp.len) || (inp.len > 1100 && inp.len % 2048 != 0)) {
+            if a.get("len").is_none() && (!key_length(inp.len) || (inp.len > 1100 && inp.len % 2048 != 0)) {
                 let light = route != "push"
                     || matches!(variant.as_str(), "sel00" | "sel10" | "sel01" | "alias32" | "alias64" | "opt_default" | "from_bit_vector" | "nosel_space" | "seq_noadapt")
                     || fam == "adaptive_md";
-                if light && vi % 3 != 0 {
+                if light && vi % (if a.thorough() { 2 } else { 3 }) != 0 {
                     continue;
                 }
             }
